@@ -619,6 +619,48 @@ def gen_stray_root_programs():
     return progs
 
 
+def gen_msync_programs():
+    """Mapped writers (declared size <= 1 MiB) whose caller CARRIES ON after a failed write / flush - for the leg in
+    which every msync(2) fails: an overflowing first chunk (the mapping is given up: flush, cut, unmap), then chunks that
+    fit; a short stream, a flush, more data.  Nothing may crash the process (a store through a mapping whose file has
+    already been cut is SIGBUS), hang, or leave the content area invalid."""
+    progs = []
+    for fl, keyed in (("s", True), ("s", False), ("a", False)):
+        k = hx(b"ms") if keyed else "-"
+        shapes = [
+            ("overflow-then-fit", 8, [b"twelve bytes", b"four", b"four"]),
+            ("overflow-then-fit-big", 4096, [b"x" * 5000, b"y" * 100, b"z" * 3996]),
+            ("fit-flush-fit", 16, [b"eight by", None, b"tes more"]),
+            ("exact", 8, [b"8 bytes!"]),
+            ("nothing", 64, []),
+        ]
+        for name, size, chunks in shapes:
+            ops = [f"wopen {fl} c0 W1 {k} algo=sha256 size={size} sri=- time=- meta=- raw=-"]
+            for c in chunks:
+                ops.append("wflush W1" if c is None else f"wwrite W1 {hx(c)}")
+            ops += ["wcommit W1", w_oneshot(fl, "sha256", b"afterwards", b"an ordinary write afterwards"),
+                    f"read {fl} c0 {hx(b'afterwards')}", "dump c0/content-v2", "dump c0/tmp"]
+            progs.append(Program(f"msync-{name}-{fl}-{int(keyed)}", ops, model=False, tags={"variety": ("msync", name, fl, keyed)}))
+    return progs
+
+
+def mon_survives(rr):
+    """Every operation of the program was answered (the process was not killed, did not hang), the last
+    read worked, the content area is valid and no temp file is left."""
+    out = []
+    sig = {"variety": rr.prog.tags.get("variety", ("?",))[0]}
+    if len(rr.impl) < len(rr.prog.ops) or any(toks(l)[0] in ("panic", "hang") for l in rr.impl):
+        i = min(len(rr.impl), len(rr.prog.ops) - 1)
+        return [Failure("panic_or_crash", i, f"the process stopped answering at `{rr.prog.ops[i][:50]}` ({len(rr.impl)} of "
+                        f"{len(rr.prog.ops)} operations answered, last: {rr.impl[-1][:30] if rr.impl else '-'})", sig=sig)]
+    rd = toks(rr.impl[-3])
+    if rd[0] != "ok" or unhx(rd[1]) != b"an ordinary write afterwards":
+        out.append(Failure("unusable_after_fault", len(rr.impl) - 3, f"an ordinary write + read afterwards -> {' '.join(rd[:3])[:50]}", sig=sig))
+    if norm(rr.impl[-1]) != "ok":
+        out.append(Failure("temp_left_after_fault", len(rr.impl) - 1, "temp file left behind", sig=sig))
+    return out
+
+
 def gen_rewrite_same_programs():
     """The same bytes stored twice through every one-shot and streamed entry point, small and large: the second write
     finds the stored copy and must leave it alone (for the system-call skeleton leg: no call of the second write opens,
